@@ -88,6 +88,24 @@ def enum_int(interp, ev):
 def v_eq(interp, a, b):
     if a is b and not isinstance(a, PObj):
         return True
+    from . import abstract as _ab
+    if isinstance(a, _ab.AbsVal) or isinstance(b, _ab.AbsVal):
+        if isinstance(a, _ab.AbsVal) and isinstance(b, _ab.AbsVal):
+            return True if a.term.eq(b.term) else (a.term == b.term)
+        x, y = (a, b) if isinstance(a, _ab.AbsVal) else (b, a)
+        if isinstance(y, PList) and not y.items:
+            return x.term == _ab.NIL
+        raise Unsupported('comparison of an abstract settings list with a concrete one')
+    if isinstance(a, _ab.AbsTbl) or isinstance(b, _ab.AbsTbl):
+        ta = a.term if isinstance(a, _ab.AbsTbl) else (_ab.EMPTY if isinstance(a, PDict) and not a.keys else None)
+        tb = b.term if isinstance(b, _ab.AbsTbl) else (_ab.EMPTY if isinstance(b, PDict) and not b.keys else None)
+        if ta is None or tb is None:
+            raise Unsupported('comparison of an abstract table with a concrete one')
+        return True if ta.eq(tb) else (ta == tb)
+    if isinstance(a, UStr) or isinstance(b, UStr):
+        ta = a.term if isinstance(a, UStr) else str_term(a)
+        tb = b.term if isinstance(b, UStr) else str_term(b)
+        return True if ta.eq(tb) else (ta == tb)
     if a is None or b is None:
         return a is None and b is None
     p = interp.p
